@@ -127,14 +127,14 @@ def run(ck):
         ck.ob("C06-O3", sitestr(ro, p), okp and okr, "every iteration deletes and pops exactly one element" if (okp and okr) else "an iteration can skip the %s" % ("pop (endless loop)" if not okp else "deletion"),
               key="removeOldFiles|iteration")
     src = container_origin(ro, listref)
-    okl = is_call(src, RP + "::findRotatedFiles")
+    okl = isinstance(skip_copies(src), dict) and skip_copies(src).get("k") == "call" and skip_copies(src).get("fn") == S.m["findRotatedFiles"].id
     ck.ob("C06-O3", sitestr(ro), okl, "the candidates are findRotatedFiles()" if okl else "the candidates come from %s" % describe(src), key="removeOldFiles|candidates")
     # rotate(): cleanup after the rename on every path after close
     rt = S.m["rotate"]
     gr = S.g(rt)
     closes = [n for n in rt.calls(("QFileDevice::close", "QFile::close", "QIODevice::close")) if S.is_active_file(n.get("obj"))]
     renames = [n for n in rt.calls() if destructive_kind(n) == "rename"]
-    cleanup = [n for n in rt.calls(RP + "::removeOldFiles")]
+    cleanup = [n for n in S.calls_to(rt, "removeOldFiles")]
     ck.require(closes and renames, "rotate(): close/rename not found")
     if not cleanup:
         ck.ob("C06-O3", sitestr(rt), False, "rotate() never runs the clean-up: the number of files grows without bound", key="rotate|no-cleanup")
